@@ -19,10 +19,6 @@ SAFE_CALLS = ("position", "rposition", "find", "rfind", "len", "min", "binary_se
 REVIEWED_INDEX = {
     "minijinja::filters::builtins::slice|Range(((..+..)|0+(..*..)),((..+..)|0+(..*..)))":
         "start/end are partial sums of items_per_slice (= len / count) and the remainder: end <= len (C01.P3 reviews the arithmetic)",
-    "minijinja::value::ops::slice::{closure#1}|arg2": "indices come from range_step_backwards(.., chars.len()): all < len",
-    "minijinja::value::ops::slice::{closure#3}|arg2": "indices come from range_step_backwards(.., bytes.len()): all < len",
-    "minijinja::value::ops::slice::{closure#6}|arg2": "indices come from range_step_backwards(.., len): all < len",
-    "minijinja::value::ops::slice::{closure#9}::{closure#0}|arg2": "indices come from range_step_backwards(.., len): all < len",
     "<minijinja_contrib::globals::cycler::Cycler as minijinja::value::object::Object>::call_method|call:load":
         "pos is only ever stored as (idx + 1) % items.len() and items is non-empty by construction",
     "minijinja_contrib::filters::striptags::{closure#1}|arg2": "the closure maps the Ok(index) of binary_search_by_key on the same table",
@@ -94,6 +90,17 @@ def classify(f, bb, idx_op):
     return e, None
 
 
+_BW = {}
+
+
+def _bw_closures(prog):
+    if id(prog) not in _BW:
+        from . import c09 as _c09
+        _BW.clear()
+        _BW[id(prog)] = _c09.backward_index_closures(prog)
+    return _BW[id(prog)]
+
+
 def check_indexing(ctx, prog):
     n = 0
     for f in prog.fns.values():
@@ -112,6 +119,12 @@ def check_indexing(ctx, prog):
             n += 1
             e, why = classify(f, bb, idx)
             key = "%s|%s" % (f.path, e)
+            if not why and f.kind == "closure" and f.path in _bw_closures(prog) and all(
+                    o.kind == "arg" and o.arg == 2 for o in flow.origins(f, idx)):
+                # structural (not keyed by a closure number): the closure maps the indices the backward slicing helper
+                # produced for the length of a collected operand (C09.S2 holds the call to that shape)
+                why = "the closure maps indices of the backward slicing helper, which was given the collection's length"
+                key = "%s|%s" % ((f.root or f.path) + "::{index-map}", e)
             why = why or REVIEWED_INDEX.get(key) and ("reviewed - " + REVIEWED_INDEX[key])
             ctx.ob("C01.P9.index-is-in-range-by-construction", key, bool(why),
                    ("accepted: " + why) if why else
